@@ -234,7 +234,7 @@ const c10WorldsPerCase = 5
 func init() {
 	core.Register(&core.Prop{
 		ID:   "C10",
-		Rule: "generated worlds: struct/resource interface DAGs (depth ≤ 4, `B: A` inheritance, optionally split over two deployed contracts) in which every interface function declares own pre/post conditions over Int parameters, self fields, before(...) and result, some `emit` conditions; default functions, overrides (with and without own conditions, renamed parameters), nested calls; calls generated condition by condition from the Go condition model (exactly one false condition) plus all-true and arbitrary calls, through the concrete type, {I}, &S, &{I}, optional chaining and bound function values; distinct = distinct (world, call script)",
+		Rule: "generated worlds: struct/resource interface DAGs (depth ≤ 4, `B: A` inheritance, optionally split over two deployed contracts) in which every interface function declares own pre/post conditions over Int parameters, self fields, before(...) and result, some `emit` conditions; contracts conforming to one or two contract interfaces whose contract functions carry pre/post conditions, with nested type declarations before/between/after the functions; default functions, overrides (with and without own conditions, renamed parameters), nested calls; calls generated condition by condition from the Go condition model (exactly one false condition) plus all-true and arbitrary calls, through the concrete type, {I}, &S, &{I}, optional chaining and bound function values; distinct = distinct (world, call script)",
 		Assumptions: []string{
 			"the Go model evaluates Int arithmetic with int64 on small operands (calls that leave ±2^40 are discarded)",
 			"conditions are pure, so the order of evaluation among the pre- (post-) conditions of one call cannot change which conditions are false; order is recorded, not judged",
@@ -250,7 +250,7 @@ func init() {
 			"falsified:nested-call": 30, "falsified:uses-before": 100, "falsified:uses-result": 50,
 			"impl:default-function-direct": 150, "impl:default-function-indirect": 100, "impl:override": 400, "impl:override-without-own-conditions": 200,
 			"form:concrete": 100, "form:{I}": 200, "form:&S": 100, "form:&{I}": 200, "form:(&{I})?.": 100, "form:bound-function-value": 50,
-			"emit_events_checked": 2000, "contract_mode_calls": 300, "renamed_parameters_calls": 500,
+			"emit_events_checked": 2000, "contract_mode_calls": 300, "contract_gate_calls": 300, "contract_gate_expected_condition_error": 100, "contract_gate_expected_success": 100, "renamed_parameters_calls": 500,
 			"kind:struct": 30, "kind:resource": 30, "single_false_condition_named": 1000,
 		},
 		Run: runC10,
@@ -267,6 +267,10 @@ func init() {
 func runC10(c *core.Ctx) {
 	for k := 0; k < c10WorldsPerCase; k++ {
 		c10World(c)
+	}
+	// contract functions with conditions inherited from contract interfaces (c10_gate.go)
+	for k := 0; k < 2; k++ {
+		c10Gate(c)
 	}
 }
 
